@@ -1096,4 +1096,34 @@ theorem text_run {rb : RB} {line col : Int} (hl : 0 ≤ line ∧ line < rb.lines
     rw [c4 l c (by rw [hBline, hBcol]; omega), b4 l c (by rw [hAline, hAcol]; omega),
       a4 l c (by rw [e1, e2]; omega), e3]
 
+/-! ## The columns of a whole text -/
+
+theorem addZeroWidth_col (t : GridTerm) (bs : List UInt8) : (t.addZeroWidth bs).col = t.col := by
+  unfold GridTerm.addZeroWidth
+  cases t.last <;> rfl
+
+theorem putChs_col (cs : List Ch) : ∀ t : GridTerm, (t.putChs cs).col = t.col + chCols cs := by
+  induction cs with
+  | nil => intro t; simp [GridTerm.putChs, chCols]
+  | cons c cs ih =>
+    intro t
+    rw [putChs_cons, ih]
+    simp only [chCols, GridTerm.putCh]
+    by_cases hc : c.width = 0
+    · rw [if_pos hc, addZeroWidth_col]; omega
+    · rw [if_neg hc]
+      have : (t.putGlyph c.bytes c.width).col = t.col + c.width := rfl
+      rw [this]; omega
+
+/-- Without any limit the counter consumes everything. -/
+theorem prefixLen_nolimit : ∀ (cs : List Ch) (p : StrPos), prefixLen ⟨-1, -1, -1, -1⟩ p cs = cs.length := by
+  intro cs
+  induction cs with
+  | nil => intro p; rfl
+  | cons c cs ih =>
+    intro p
+    have : stops ⟨-1, -1, -1, -1⟩ p c = false := by simp [stops]
+    simp only [prefixLen, this, Bool.false_eq_true, if_false, ih, List.length_cons]
+    omega
+
 end Tickit.RBFlush
